@@ -513,3 +513,338 @@ Proof.
         specialize (Hk (Lx + x, Ly + j, Lz + i) ch). cbn [fst snd] in Hk. specialize (Hk ltac:(lia) Hch).
         intro Ek. apply Hk. rewrite Ek. ring.
 Qed.
+
+(* divisions by the block size stay opaque to lia *)
+Ltac Zify.zify_post_hook ::= idtac.
+
+(* ---- voxels, blocks and buffer positions ---- *)
+Definition in_geom (g : geom) (p : pt) : Prop := in_range (goff g) (gend g) p.
+
+Lemma radix_unique a r a' r' M : 0 <= r < M -> 0 <= r' < M -> a * M + r = a' * M + r' -> a = a' /\ r = r'.
+Proof. intros Hr Hr' E. assert (a = a') by nia. subst. lia. Qed.
+
+Lemma chan_bound x ch w v : 0 <= x < w -> 0 <= ch < v -> 0 <= x * v + ch < w * v.
+Proof. intros Hx Hc. split; [nia|]. assert (x * v + v <= w * v) by nia. lia. Qed.
+
+(* distinct (voxel, byte) pairs of a geometry have distinct buffer positions *)
+Lemma didx_inj c g stride p p' ch ch' : cfg_ok c -> geom_ok g -> stride_ok c g stride ->
+  in_geom g p -> in_geom g p' -> 0 <= ch < bpv c -> 0 <= ch' < bpv c ->
+  didx c g stride (pminus p (goff g)) + ch = didx c g stride (pminus p' (goff g)) + ch' -> p = p' /\ ch = ch'.
+Proof.
+  destruct c as [[[kx ky] kz] v bg]. destruct g as [sh [[ox oy] oz] w h d].
+  destruct p as [[x y] z], p' as [[x' y'] z'].
+  intros (_ & _ & _ & Hv) (Ho & Hw & Hh & Hd) Hs.
+  unfold stride_ok, px, py, pz in Hv, Ho, Hw, Hh, Hd, Hs. cbn [fst snd bsz bpv gshape goff gw gh gd] in Hv, Ho, Hw, Hh, Hd, Hs.
+  unfold in_geom, in_range, gend, g_size3, didx, pminus, stride_ok, px, py, pz; cbn [fst snd bsz bpv gshape goff gw gh gd].
+  destruct sh; cbn [fst snd]; intros Hp Hp' Hc Hc' E.
+  - pose proof (chan_bound (x - ox) ch w v ltac:(lia) Hc). pose proof (chan_bound (x' - ox) ch' w v ltac:(lia) Hc').
+    destruct (radix_unique (y - oy) ((x - ox) * v + ch) (y' - oy) ((x' - ox) * v + ch') stride ltac:(lia) ltac:(lia) ltac:(lia)) as (E1 & E2).
+    destruct (radix_unique (x - ox) ch (x' - ox) ch' v Hc Hc' E2) as (E3 & E4).
+    split; [|assumption]. f_equal; [f_equal|]; lia.
+  - pose proof (chan_bound (x - ox) ch w v ltac:(lia) Hc). pose proof (chan_bound (x' - ox) ch' w v ltac:(lia) Hc').
+    destruct (radix_unique (z - oz) ((x - ox) * v + ch) (z' - oz) ((x' - ox) * v + ch') stride ltac:(lia) ltac:(lia) ltac:(lia)) as (E1 & E2).
+    destruct (radix_unique (x - ox) ch (x' - ox) ch' v Hc Hc' E2) as (E3 & E4).
+    split; [|assumption]. f_equal; [f_equal|]; lia.
+  - pose proof (chan_bound (y - oy) ch w v ltac:(lia) Hc). pose proof (chan_bound (y' - oy) ch' w v ltac:(lia) Hc').
+    destruct (radix_unique (z - oz) ((y - oy) * v + ch) (z' - oz) ((y' - oy) * v + ch') stride ltac:(lia) ltac:(lia) ltac:(lia)) as (E1 & E2).
+    destruct (radix_unique (y - oy) ch (y' - oy) ch' v Hc Hc' E2) as (E3 & E4).
+    split; [|assumption]. f_equal; [f_equal|]; lia.
+  - pose proof (chan_bound (x - ox) ch w v ltac:(lia) Hc) as B1. pose proof (chan_bound (x' - ox) ch' w v ltac:(lia) Hc') as B2.
+    pose proof (chan_bound (y - oy) ((x - ox) * v + ch) h (w * v) ltac:(lia) B1) as B3.
+    pose proof (chan_bound (y' - oy) ((x' - ox) * v + ch') h (w * v) ltac:(lia) B2) as B4.
+    destruct (radix_unique (z - oz) ((y - oy) * (w * v) + ((x - ox) * v + ch)) (z' - oz) ((y' - oy) * (w * v) + ((x' - ox) * v + ch')) (h * (w * v))
+                ltac:(lia) ltac:(lia) ltac:(lia)) as (E1 & E2).
+    destruct (radix_unique _ _ _ _ (w * v) B1 B2 E2) as (E3 & E4).
+    destruct (radix_unique (x - ox) ch (x' - ox) ch' v Hc Hc' E4) as (E5 & E6).
+    split; [|assumption]. f_equal; [f_equal|]; lia.
+Qed.
+
+Lemma div_block_iff k b P : 0 < k -> (b * k <= P <= (b + 1) * k - 1) <-> P / k = b.
+Proof.
+  intro H. pose proof (block_range_iff k b b P H) as I. split; intro X.
+  - assert (b <= P / k <= b) by (apply I; lia). lia.
+  - assert (b * k <= P /\ P <= (b + 1) * k - 1) by (apply I; lia). lia.
+Qed.
+
+(* the part of a geometry inside block b = the voxels of the geometry whose block is b *)
+Lemma in_part_iff c g b p : cfg_ok c ->
+  in_range (lo g (bsz c) b) (hi g (bsz c) b) p <-> (in_geom g p /\ block_of (bsz c) p = b).
+Proof.
+  destruct c as [[[kx ky] kz] v bg]. destruct b as [[bx by_] bz]. destruct p as [[x y] z].
+  intros (Kx & Ky & Kz & _). unfold in_geom, in_range, lo, hi, block_of, px, py, pz in *; cbn [fst snd bsz] in *.
+  pose proof (div_block_iff kx bx x ltac:(lia)) as Ix. pose proof (div_block_iff ky by_ y ltac:(lia)) as Iy.
+  pose proof (div_block_iff kz bz z ltac:(lia)) as Iz.
+  set (ex := fst (fst (gend g))) in *. set (ey := snd (fst (gend g))) in *. set (ez := snd (gend g)) in *.
+  clearbody ex ey ez.
+  destruct (goff g) as [[ox oy] oz]; cbn [fst snd].
+  split.
+  - intro H. split; [clear Ix Iy Iz; lia|]. f_equal; [f_equal|]; [apply Ix|apply Iy|apply Iz]; clear Ix Iy Iz; lia.
+  - intros (H & E). inversion E as [[E1 E2 E3]].
+    assert (bx * kx <= x <= (bx + 1) * kx - 1) by (apply Ix; assumption).
+    assert (by_ * ky <= y <= (by_ + 1) * ky - 1) by (apply Iy; assumption).
+    assert (bz * kz <= z <= (bz + 1) * kz - 1) by (apply Iz; assumption).
+    rewrite E1, E2, E3. clear Ix Iy Iz E E1 E2 E3. lia.
+Qed.
+
+Lemma meets_of_voxel c g p : cfg_ok c -> in_geom g p -> meets g (bsz c) (block_of (bsz c) p).
+Proof.
+  intros Hc Hp. pose proof (proj2 (in_part_iff c g (block_of (bsz c) p) p Hc) (conj Hp eq_refl)) as R.
+  unfold meets, in_range in *. lia.
+Qed.
+
+(* ---- the store ---- *)
+Definition store_ok (c : cfg) (st : bstore) : Prop := forall b v, st_get st b = Some v -> zlen v = block_bytes c.
+
+Lemma pt_eqb_true p q : pt_eqb p q = true <-> p = q.
+Proof.
+  destruct p as [[a b] c], q as [[a' b'] c']. unfold pt_eqb, px, py, pz; cbn [fst snd].
+  split; [intro H; repeat f_equal; lia|intro H; inversion H; subst; lia].
+Qed.
+
+Lemma st_get_put st b v b' : st_get (st_put st b v) b' = if pt_eqb b b' then Some v else st_get st b'.
+Proof.
+  induction st as [|[k v0] t IH]; cbn [st_put st_get].
+  - destruct (pt_eqb b b'); reflexivity.
+  - destruct (pt_eqb k b) eqn:E; cbn [st_get].
+    + apply pt_eqb_true in E. subst k. destruct (pt_eqb b b'); reflexivity.
+    + destruct (pt_eqb k b') eqn:E'; [|exact IH].
+      apply pt_eqb_true in E'. subst k. destruct (pt_eqb b b') eqn:E2; [|reflexivity].
+      apply pt_eqb_true in E2. subst b'. assert (pt_eqb b b = true) by (apply pt_eqb_true; reflexivity). congruence.
+Qed.
+
+(* byte ch of voxel p as the store holds it *)
+Definition stored_byte (c : cfg) (st : bstore) (p : pt) (ch : Z) : option N :=
+  match st_get st (block_of (bsz c) p) with
+  | Some blk => Some (nthZ blk (bidx c (pminus p (bmin c (block_of (bsz c) p))) + ch))
+  | None => None
+  end.
+
+
+Definition pos (c : cfg) (g : geom) (stride : Z) (p : pt) (ch : Z) : Z := didx c g stride (pminus p (goff g)) + ch.
+Definition listed (b : pt) (bl : list pt) : bool := existsb (pt_eqb b) bl.
+
+Lemma data_len_ok_ext c g stride d d' : zlen d' = zlen d -> data_len_ok c g stride d -> data_len_ok c g stride d'.
+Proof. unfold data_len_ok. intros E H. destruct (gshape g); lia. Qed.
+
+(* GetVoxels over blocks that all meet the geometry: a voxel whose block is listed and stored gets
+   the stored byte, every other voxel keeps what the buffer held *)
+Lemma get_blocks_into_spec c g stride st : cfg_ok c -> geom_ok g -> stride_ok c g stride -> store_ok c st ->
+  forall bl data, data_len_ok c g stride data -> (forall b, In b bl -> meets g (bsz c) b) ->
+  exists d', get_blocks_into c g stride st data (map (fun b => (b, true)) bl) = Ok d' /\ zlen d' = zlen data
+    /\ forall p ch, in_geom g p -> 0 <= ch < bpv c ->
+         nthZ d' (pos c g stride p ch)
+         = match (if listed (block_of (bsz c) p) bl then stored_byte c st p ch else None) with
+           | Some v => v
+           | None => nthZ data (pos c g stride p ch)
+           end.
+Proof.
+  intros Hc Hg Hs Hst. induction bl as [|b t IH]; intros data Hd Hm; cbn [map get_blocks_into].
+  - exists data. split; [reflexivity|]. split; [reflexivity|]. intros p ch Hp Hch. reflexivity.
+  - assert (Hm' : forall b0, In b0 t -> meets g (bsz c) b0) by (intros; apply Hm; now right).
+    destruct (st_get st b) as [v|] eqn:Eb.
+    + destruct (block_xfer c g stride b data v Hc Hg (Hm b (or_introl eq_refl)) Hs Hd (Hst b v Eb)) as ((d1 & E1 & L1 & P1 & Q1) & _).
+      rewrite E1. destruct (IH d1 (data_len_ok_ext _ _ _ _ _ L1 Hd) Hm') as (d' & E & L & P).
+      exists d'. split; [exact E|]. split; [lia|]. intros p ch Hp Hch. rewrite (P p ch Hp Hch).
+      unfold listed. cbn [existsb]. fold (listed (block_of (bsz c) p) t).
+      destruct (pt_eqb (block_of (bsz c) p) b) eqn:Ep; cbn [orb].
+      * apply pt_eqb_true in Ep. unfold stored_byte. rewrite Ep, Eb.
+        destruct (listed b t); [reflexivity|].
+        unfold pos. apply P1; [|assumption]. apply in_part_iff; [assumption|]. split; assumption.
+      * assert (U : nthZ d1 (pos c g stride p ch) = nthZ data (pos c g stride p ch)); [|rewrite U; reflexivity].
+        apply Q1. intros p' ch' Hp' Hch' E'. apply in_part_iff in Hp' as (Hg' & Hb'); [|assumption].
+        destruct (didx_inj c g stride p p' ch ch' Hc Hg Hs Hp Hg' Hch Hch' E') as (-> & _).
+        assert (pt_eqb (block_of (bsz c) p') b = true) by (apply pt_eqb_true; assumption). congruence.
+    + destruct (IH data Hd Hm') as (d' & E & L & P).
+      exists d'. split; [exact E|]. split; [exact L|]. intros p ch Hp Hch. rewrite (P p ch Hp Hch).
+      unfold listed. cbn [existsb]. fold (listed (block_of (bsz c) p) t).
+      destruct (pt_eqb (block_of (bsz c) p) b) eqn:Ep; cbn [orb]; [|reflexivity].
+      apply pt_eqb_true in Ep. unfold stored_byte. rewrite Ep, Eb. destruct (listed b t); reflexivity.
+Qed.
+
+(* ---- block iteration ---- *)
+Definition blk_small (b : pt) : Prop :=
+  - 1073741824 <= px b <= 1073741824 /\ - 1073741824 <= py b <= 1073741824 /\ - 1073741824 <= pz b <= 1073741824.
+
+Lemma blk_small_is32 b : blk_small b -> pt_is32 b.
+Proof. unfold blk_small, pt_is32, is32. change (2 ^ 31) with 2147483648. lia. Qed.
+
+(* Valid() compares key bytes; by C18 (zyx_order) that is the (z, y, x) order of the blocks *)
+Lemma iter_valid_eq cur endb : pt_is32 cur -> pt_is32 endb ->
+  iter_valid cur endb = match zyx_cmp cur endb with Gt => false | _ => true end.
+Proof.
+  intros H1 H2. destruct (zyx_roundtrip_l cur H1) as (a & Ea & _). destruct (zyx_roundtrip_l endb H2) as (b & Eb & _).
+  unfold iter_valid. rewrite Ea, Eb. now rewrite (zyx_order_l cur endb a b H1 H2 Ea Eb).
+Qed.
+
+Lemma iter_spans_spec bb eb : blk_small bb -> blk_small eb -> px bb <= px eb -> py bb <= py eb -> pz bb <= pz eb ->
+  forall fuel y z, py bb <= y <= py eb -> pz bb <= z <= pz eb + 1 -> (z = pz eb + 1 -> y = py bb) ->
+  (pz eb - z) * (py eb - py bb + 1) + (py eb - y + 1) < Z.of_nat fuel ->
+  exists l, iter_spans fuel y z bb eb = Some l
+    /\ forall y' z', In (y', z') l <->
+         (py bb <= y' <= py eb /\ pz bb <= z' <= pz eb /\ (z < z' \/ (z = z' /\ y <= y'))).
+Proof.
+  intros Sb Se Hx Hy Hz. induction fuel as [|f IH]; intros y z Ry Rz Rt Rf.
+  - exfalso. assert (0 <= (pz eb - z) * (py eb - py bb + 1) + (py eb - y + 1)); [|lia].
+    destruct (Z.eq_dec z (pz eb + 1)) as [E|N]; [rewrite (Rt E), E; lia|].
+    assert (0 <= (pz eb - z) * (py eb - py bb + 1)) by (apply Z.mul_nonneg_nonneg; lia). lia.
+  - cbn [iter_spans].
+    assert (V : iter_valid (px bb, y, z) eb = (z <=? pz eb)).
+    { rewrite iter_valid_eq.
+      - unfold zyx_cmp, px, py, pz; cbn [fst snd]. unfold px, py, pz in *.
+        destruct (Z.compare_spec z (snd eb)); [|lia|lia].
+        destruct (Z.compare_spec y (snd (fst eb))); [|lia|lia].
+        destruct (Z.compare_spec (fst (fst bb)) (fst (fst eb))); lia.
+      - unfold blk_small, pt_is32, is32, px, py, pz in *; cbn [fst snd]. change (2 ^ 31) with 2147483648. lia.
+      - apply blk_small_is32. assumption. }
+    rewrite V. destruct (Z.leb_spec z (pz eb)) as [Le|Gt].
+    + rewrite (w32_small (y + 1)) by (unfold blk_small in *; lia).
+      destruct (Z.ltb_spec (py eb) (y + 1)) as [Wrap|Next].
+      * rewrite (w32_small (z + 1)) by (unfold blk_small in *; lia).
+        destruct (IH (py bb) (z + 1)) as (l & E & M); try lia.
+        rewrite E. eexists. split; [reflexivity|]. intros y' z'. cbn [In]. rewrite M.
+        split; [intros [X|X]; [inversion X; lia|lia]|intro X].
+        destruct (Z.eq_dec z z'); [left; f_equal; lia|right; lia].
+      * destruct (IH (y + 1) z) as (l & E & M); try lia.
+        rewrite E. eexists. split; [reflexivity|]. intros y' z'. cbn [In]. rewrite M.
+        split; [intros [X|X]; [inversion X; lia|lia]|intro X].
+        destruct (Z.eq_dec z z'); [destruct (Z.eq_dec y y'); [left; congruence|right; lia]|right; lia].
+    + exists []. split; [reflexivity|]. intros y' z'. cbn [In]. lia.
+Qed.
+
+Lemma span_blocks_in bx ex y z b : In b (span_blocks bx ex y z) <-> (py b = y /\ pz b = z /\ bx <= px b <= ex).
+Proof.
+  unfold span_blocks. rewrite in_map_iff. split.
+  - intros (i & <- & Hi). apply in_seq in Hi. unfold px, py, pz; cbn [fst snd]. lia.
+  - intros (E1 & E2 & R). exists (Z.to_nat (px b - bx)). split.
+    + destruct b as [[x y'] z']. unfold px, py, pz in *; cbn [fst snd] in *. subst. replace (bx + Z.of_nat (Z.to_nat (x - bx))) with x by lia. reflexivity.
+    + apply in_seq. lia.
+Qed.
+
+Lemma div_le_iff k b P : 0 < k -> (P / k <= b <-> P <= (b + 1) * k - 1).
+Proof.
+  intro H. pose proof (Z.div_mod P k ltac:(lia)). pose proof (Z.mod_pos_bound P k H).
+  set (q := P / k) in *. set (r := P mod k) in *. clearbody q r. subst P. split; intro; nia.
+Qed.
+Lemma le_div_iff k b P : 0 < k -> (b <= P / k <-> b * k <= P).
+Proof.
+  intro H. pose proof (Z.div_mod P k ltac:(lia)). pose proof (Z.mod_pos_bound P k H).
+  set (q := P / k) in *. set (r := P mod k) in *. clearbody q r. subst P. split; intro; nia.
+Qed.
+Lemma div_small P k : 1 <= k -> - 1073741824 <= P <= 1073741824 -> - 1073741824 <= P / k <= 1073741824.
+Proof.
+  intros Hk HP. split.
+  - apply (proj2 (le_div_iff k (-1073741824) P ltac:(lia))). nia.
+  - apply (proj2 (div_le_iff k 1073741824 P ltac:(lia))). nia.
+Qed.
+
+Lemma meets1_iff k b o s : 0 < k -> 1 <= s ->
+  (Z.max o (b * k) <= Z.min (o + s - 1) ((b + 1) * k - 1) <-> o / k <= b <= (o + s - 1) / k).
+Proof.
+  intros Hk Hs. pose proof (div_le_iff k b o Hk) as A. pose proof (le_div_iff k b (o + s - 1) Hk) as B.
+  set (q1 := o / k) in *. set (q2 := (o + s - 1) / k) in *. clearbody q1 q2.
+  assert (b * k <= (b + 1) * k - 1) by lia. lia.
+Qed.
+
+Lemma meets_iff c g b : cfg_ok c -> geom_ok g ->
+  meets g (bsz c) b <-> in_range (block_of (bsz c) (goff g)) (block_of (bsz c) (gend g)) b.
+Proof.
+  intros (Kx & Ky & Kz & _) Hg. pose proof (size3_pos g Hg) as S.
+  unfold meets, in_range, lo, hi, block_of, gend, px, py, pz in *; cbn [fst snd].
+  destruct (bsz c) as [[kx ky] kz]. destruct b as [[bx by_] bz]. destruct (goff g) as [[ox oy] oz]. cbn [fst snd] in *.
+  set (sx := fst (fst (g_size3 g))) in *. set (sy := snd (fst (g_size3 g))) in *. set (sz := snd (g_size3 g)) in *.
+  clearbody sx sy sz.
+  rewrite (meets1_iff kx bx ox sx), (meets1_iff ky by_ oy sy), (meets1_iff kz bz oz sz) by lia. reflexivity.
+Qed.
+
+(* the blocks GetVoxels / PutVoxels visit: exactly those that meet the geometry *)
+Lemma geom_blocks_spec c g : cfg_ok c -> geom_ok g ->
+  exists bl, geom_blocks c g = Ok bl /\ forall b, In b bl <-> meets g (bsz c) b.
+Proof.
+  intros Hc Hg. pose proof (size3_pos g Hg) as S3. unfold geom_blocks. rewrite g_end_eq by assumption.
+  assert (Hb : bsize_ok (bsz c)) by (destruct Hc as (A & B & C & _); unfold bsize_ok; lia).
+  assert (So : pt_safe (goff g)) by (destruct Hg as (Ho & _); unfold pt_safe; lia).
+  assert (Se : pt_safe (gend g)) by (destruct Hg as (Ho & _); unfold pt_safe, gend, px, py, pz in *; cbn [fst snd]; lia).
+  rewrite (chunk_pt_floor _ _ So Hb), (chunk_pt_floor _ _ Se Hb).
+  set (bb := block_of (bsz c) (goff g)). set (eb := block_of (bsz c) (gend g)).
+  assert (Sbb : blk_small bb /\ blk_small eb /\ px bb <= px eb /\ py bb <= py eb /\ pz bb <= pz eb).
+  { destruct Hc as (Kx & Ky & Kz & _). destruct Hg as (Ho & _).
+    unfold bb, eb, blk_small, block_of, gend, px, py, pz in *; cbn [fst snd].
+    repeat split; try (apply div_small; lia); try (apply Z.div_le_mono; lia). }
+  destruct Sbb as (Sb & Se' & Hx & Hy & Hz).
+  assert (N0 : 0 <= (py eb - py bb + 1) * (pz eb - pz bb + 1)) by (apply Z.mul_nonneg_nonneg; lia).
+  assert (Fuel : (pz eb - pz bb) * (py eb - py bb + 1) + (py eb - py bb + 1)
+                 < Z.of_nat (Datatypes.S (Z.to_nat ((py eb - py bb + 1) * (pz eb - pz bb + 1))))).
+  { rewrite Nat2Z.inj_succ, Z2Nat.id by exact N0. lia. }
+  destruct (iter_spans_spec bb eb Sb Se' Hx Hy Hz _ (py bb) (pz bb) ltac:(lia) ltac:(lia) ltac:(lia) Fuel) as (sp & E & M).
+  rewrite E. eexists. split; [reflexivity|]. intro b.
+  rewrite (meets_iff c g b Hc Hg). fold bb eb. rewrite in_flat_map. split.
+  - intros ([y z] & Hs & Hin). apply M in Hs. apply span_blocks_in in Hin. cbn [fst snd] in Hin.
+    unfold in_range. lia.
+  - intros R. exists (py b, pz b). split; [apply M; unfold in_range in R; lia|].
+    apply span_blocks_in. cbn [fst snd]. unfold in_range in R. lia.
+Qed.
+
+(* ---- reading a geometry from the store ---- *)
+Lemma nth_repeat_lt {A} (x d : A) n k : (k < n)%nat -> nth k (repeat x n) d = x.
+Proof. revert k. induction n as [|n IH]; intros [|k] H; cbn; try lia; [reflexivity|]. apply IH. lia. Qed.
+Lemma nthZ_repeat x n k : 0 <= k < Z.of_nat n -> nthZ (repeat x n) k = x.
+Proof. intro H. unfold nthZ. replace (k <? 0) with false by lia. apply nth_repeat_lt. lia. Qed.
+
+Lemma pos_bound c g p ch : cfg_ok c -> geom_ok g -> in_geom g p -> 0 <= ch < bpv c ->
+  0 <= pos c g (gw g * bpv c) p ch < bpv c * g_numvoxels g.
+Proof.
+  destruct c as [[[kx ky] kz] v bg]. destruct g as [sh [[ox oy] oz] w h d]. destruct p as [[x y] z].
+  intros (_ & _ & _ & Hv) (Ho & Hw & Hh & Hd).
+  unfold pos, in_geom, in_range, gend, g_size3, g_numvoxels, didx, pminus, px, py, pz in *; cbn [fst snd bsz bpv gshape goff gw gh gd] in *.
+  destruct sh; cbn [fst snd]; intros Hp Hc.
+  - pose proof (chan_bound (x - ox) ch w v ltac:(lia) Hc) as B1.
+    pose proof (chan_bound (y - oy) ((x - ox) * v + ch) h (w * v) ltac:(lia) B1). lia.
+  - pose proof (chan_bound (x - ox) ch w v ltac:(lia) Hc) as B1.
+    pose proof (chan_bound (z - oz) ((x - ox) * v + ch) h (w * v) ltac:(lia) B1). lia.
+  - pose proof (chan_bound (y - oy) ch w v ltac:(lia) Hc) as B1.
+    pose proof (chan_bound (z - oz) ((y - oy) * v + ch) h (w * v) ltac:(lia) B1). lia.
+  - pose proof (chan_bound (x - ox) ch w v ltac:(lia) Hc) as B1.
+    pose proof (chan_bound (y - oy) ((x - ox) * v + ch) h (w * v) ltac:(lia) B1) as B2.
+    pose proof (chan_bound (z - oz) ((y - oy) * (w * v) + ((x - ox) * v + ch)) d (h * (w * v)) ltac:(lia) B2). lia.
+Qed.
+
+Definition init_byte (fill : bool) (c : cfg) : N := if fill then bg_byte c else 0%N.
+
+Lemma numvoxels_pos g : geom_ok g -> 1 <= g_numvoxels g.
+Proof. intros (_ & Hw & Hh & Hd). unfold g_numvoxels. destruct (gshape g); nia. Qed.
+
+Lemma stride_ok_exact c g : cfg_ok c -> geom_ok g -> stride_ok c g (gw g * bpv c).
+Proof. intros (_ & _ & _ & Hv) (_ & Hw & _). unfold stride_ok. destruct (gshape g); try exact I; nia. Qed.
+
+Lemma new_buffer_len fill c g : cfg_ok c -> geom_ok g ->
+  zlen (new_buffer fill c g) = bpv c * g_numvoxels g /\ data_len_ok c g (gw g * bpv c) (new_buffer fill c g).
+Proof.
+  intros Hc Hg. pose proof (numvoxels_pos g Hg). destruct Hc as (_ & _ & _ & Hv).
+  assert (L : zlen (new_buffer fill c g) = bpv c * g_numvoxels g).
+  { unfold new_buffer, zlen. rewrite repeat_length. nia. }
+  split; [exact L|]. unfold data_len_ok. rewrite L. unfold g_numvoxels. destruct (gshape g); lia.
+Qed.
+
+(* GET raw (any geometry, no ROI): every voxel of the request is the stored voxel, or the initial
+   byte of the buffer where no block is stored *)
+Lemma get_raw_ok fill c s g : cfg_ok c -> geom_ok g -> store_ok c (blocks s) ->
+  exists buf, get_raw fill c s g None = Ok buf /\ zlen buf = bpv c * g_numvoxels g
+    /\ forall p ch, in_geom g p -> 0 <= ch < bpv c ->
+         nthZ buf (pos c g (gw g * bpv c) p ch)
+         = match stored_byte c (blocks s) p ch with Some v => v | None => init_byte fill c end.
+Proof.
+  intros Hc Hg Hst. unfold get_raw. pose proof (numvoxels_pos g Hg) as Nv.
+  replace (negb (1 <=? g_numvoxels g)) with false by lia.
+  destruct (geom_blocks_spec c g Hc Hg) as (bl & E & M). rewrite E. cbn [roi_flags].
+  destruct (new_buffer_len fill c g Hc Hg) as (L0 & D0).
+  destruct (get_blocks_into_spec c g (gw g * bpv c) (blocks s) Hc Hg (stride_ok_exact c g Hc Hg) Hst bl
+              (new_buffer fill c g) D0 (fun b Hb => proj1 (M b) Hb)) as (d' & E' & L' & P').
+  exists d'. split; [exact E'|]. split; [lia|]. intros p ch Hp Hch. rewrite (P' p ch Hp Hch).
+  assert (Li : listed (block_of (bsz c) p) bl = true).
+  { unfold listed. apply existsb_exists. exists (block_of (bsz c) p). split.
+    - apply M. apply meets_of_voxel; assumption.
+    - apply pt_eqb_true. reflexivity. }
+  rewrite Li. destruct (stored_byte c (blocks s) p ch); [reflexivity|].
+  unfold new_buffer, init_byte. apply nthZ_repeat. pose proof (pos_bound c g p ch Hc Hg Hp Hch).
+  destruct Hc as (_ & _ & _ & Hv). assert (0 <= bpv c * g_numvoxels g) by nia. lia.
+Qed.
